@@ -123,9 +123,11 @@ func (m *Member) Synchronize(ctx context.Context, f func([]uint16), topicToSynch
 		}
 	}
 
+	verifPoint("sync.viewsAgree")
 	if len(members) > expectedMemberCount {
 		return fmt.Errorf("too many members (%d) for topic %s, expected only %d", len(members), topicHex, expectedMemberCount)
 	}
+	verifPoint("sync.sizeChecked")
 
 	sortIntSlice(members)
 
@@ -152,6 +154,7 @@ func (m *Member) Synchronize(ctx context.Context, f func([]uint16), topicToSynch
 
 	m.Logger.Debugf("Synchronized on topic %s with members %v", topicHex[:8], members)
 
+	verifPoint("sync.beforeContinuation")
 	f(members)
 
 	return nil
